@@ -94,15 +94,23 @@ def bracePat : List (Char × Bool) → List Char → Bool
 
 def compoundSetPattern (s : String) : Bool := bracePat [] s.toList
 
-/-- the shapes of KF-pinned-panics -/
-def pinnedShape (s : String) : Bool := setPatternRest s || mentionsSugar s || compoundSetPattern s
+/-- the shapes of KF-setpattern-panic (SetPattern.Bind, asserted by syntax/pattern_set_test.go) -/
+def setPatternShape (s : String) : Bool := setPatternRest s || compoundSetPattern s
+
+/-- the class of a text that has one of the two suite-pinned shapes -/
+def pinnedClass (s : String) : Option String :=
+  if setPatternShape s then some "KF-setpattern-panic"
+  else if mentionsSugar s then some "KF-pinned-panics"
+  else none
 
 /-- class of a source text none of whose parts is in function position by construction -/
 def classifyText (s : String) : String :=
-  if pinnedShape s then "KF-pinned-panics"
-  else if hasSub s "//grammar" then "KF-grammar-parse"
-  else if mentionsFn s then "KF-function-as-set"
-  else "good"
+  match pinnedClass s with
+  | some c => c
+  | none =>
+    if hasSub s "//grammar" then "KF-grammar-parse"
+    else if mentionsFn s then "KF-function-as-set"
+    else "good"
 
 /-! ## operands -/
 
@@ -147,7 +155,8 @@ def fnBodies : List String :=
   ["\\x x", "\\x x + 1", "\\x x.a", "\\x x(0)", "\\x \\y x < y", "\\x (a: x)", "\\(@: i, @item: v) v", "\\[a, b] a",
    "\\x {x}", "\\x x count", "\\x 1", "\\x ()", "\\x {}", "\\(:a, ...) a", "\\{a, ...} a", "\\x x ++ x", ".a", ". + 1", "1"]
 
-def attrNames : List String := ["a", "b", "c", "x", "@", "@item", "@char", "@byte", "@value", "'a b'", "''"]
+def attrNames : List String :=
+  ["a", "b", "c", "x", "@", "@item", "@char", "@byte", "@value", "'a b'", "''", "'&a'", "'a, b'", "@neg"]
 
 /-- one operator application around the operands `a`, `b`, `c` -/
 def genOpApp (a b c : String) : Gen (String × String) := do
@@ -244,9 +253,9 @@ def genOpExpr : Nat → Gen (String × String × List String)
 
 /-- class of an operator-stream case -/
 def classifyOps (src : String) (operands : List String) : String :=
-  if pinnedShape src then "KF-pinned-panics"
-  else if operands.any mentionsFn then "KF-function-as-set"
-  else "good"
+  match pinnedClass src with
+  | some c => c
+  | none => if operands.any mentionsFn then "KF-function-as-set" else "good"
 
 def bindXY (s : String) : Gen (String × List String) := do
   let x ← genOperand
@@ -319,10 +328,12 @@ def genLibCall : Gen (String × String × String) := do
     | 3 => (s!"{extra} => {path}", [extra])
     | _ => (call, args)
   let cls :=
-    if used.any pinnedShape then "KF-pinned-panics"
-    else if path == "//grammar.parse" then "KF-grammar-parse"
-    else if used.any mentionsFn then "KF-function-as-set"
-    else "good"
+    match pinnedClass (" ".intercalate used) with
+    | some c => c
+    | none =>
+      if path == "//grammar.parse" then "KF-grammar-parse"
+      else if used.any mentionsFn then "KF-function-as-set"
+      else "good"
   pure (call, (if core then "lib/" else "lib-ext/") ++ path, cls)
 
 /-! ## valid programs as token lists (the seeds of the mutation stream) -/
